@@ -136,6 +136,11 @@ def run_property(pid, tier="quick", seed=0):
                     nonrepro.append((c, what))
             if not confirmed_here and cs:
                 c, what = nonrepro[-1]
+                if c["obligation"] == "no-unexpected-exception" and str(c.get("detail", "")).startswith("OutsideWindow"):
+                    status["inconclusive"].append(
+                        "%s: a path left the calendar window of the datetime model (%s); inputs=%s"
+                        % (hn, str(c.get("detail")).splitlines()[0][:160], json.dumps(c["inputs"])[:300]))
+                    continue
                 status["harness_error"].append(
                     "counterexample for %s/%s does not reproduce on the real code: %s | inputs=%s"
                     % (hn, c["obligation"], what, json.dumps(c["inputs"])[:400]))
